@@ -60,11 +60,18 @@ class Multiplication:
       return self
     else:
       s, sn = self._segment_and_segment_name(segment)
+      if copy_names is None:
+        copy_names = self._compute_copy_names(sn, factor)
+      else:
+        # refuse unusable names before anything is changed
+        for i, cn in enumerate(copy_names):
+          if cn in self.names or cn in copy_names[:i]:
+            raise gfapy.NotUniqueError(
+              "The name '{}' cannot be used for a copy of ".format(cn)+
+              "segment '{}': it is already in use".format(sn))
       if track_origin and not s.get(origin_tag):
         s.set(origin_tag, sn)
       self.__divide_segment_and_connection_counts(s, factor)
-      if copy_names is None:
-        copy_names = self._compute_copy_names(sn, factor)
       for cn in copy_names:
         self.__clone_segment_and_connections(s, cn)
       if distribute:
